@@ -106,6 +106,15 @@ def build() -> Check:
             bad.append(("a summarised context sends a record / re-serialises on replay", t))
         if t.outcome == "return" and not t.value.key().startswith("ret:func"):
             bad.append((f"replay returns {t.value.key()} instead of the rebuilt result", t))
+    # ... and a recorded value may only be delivered without re-running the body once the path has established that
+    # the context is NOT in replay-children mode (a summarised context records '' / a summary, not its result)
+    for t in traces:
+        if user_events(t, "user") or t.outcome != "return":
+            continue
+        not_rc = any(("replay_children" in k and v is False) or (k.endswith("context_details is None") and v is True) for k, v in t.pc)
+        if not not_rc:
+            bad.append(("a SUCCEEDED context delivers its recorded payload without having checked the ReplayChildren flag: a summarised "
+                        "context would return the summary / None instead of its rebuilt result", t))
     ck.floor("replay_children_traces", n_rc, 1)
     ck.ob("R2.replay-children-cell", c_child, not bad, (bad[0][0] + ": " + trace_sig(bad[0][1])) if bad else "", cell="SUCCEEDED")
 
